@@ -51,13 +51,13 @@ func main() {
 		}
 	}
 	r := hx.NewRand(ctx.Seed)
-	nBushy, nLong := ctx.Scale(150, 2000), ctx.Scale(12, 150)
+	nBushy, nLong := ctx.Scale(700, 8000), ctx.Scale(60, 600)
 	for i := 0; i < nBushy; i++ {
-		runOne(ctx, chainsim.GenBushy(r.Fork(uint64(i)), chainsim.GenOpts{}), true)
+		runOne(ctx, chainsim.GenBushy(r.Fork(uint64(i)), chainsim.GenOpts{Logs: i%2 == 0}), true)
 	}
 	for i := 0; i < nLong; i++ {
 		rr := r.Fork(uint64(1000000 + i))
-		runOne(ctx, chainsim.GenLong(rr, chainsim.GenOpts{}, rr.Range(30, 140)), true)
+		runOne(ctx, chainsim.GenLong(rr, chainsim.GenOpts{Logs: i%3 == 0}, rr.Range(30, 140)), true)
 	}
 	ctx.Finish(fmt.Sprintf("fork trees on a real chain.Repository over muxdb.NewMem: %d bushy (8-60 blocks, many siblings per height, best set "+
 		"on higher/equal/lower blocks) + %d long (30-140 deep trunk with early/late side branches); after every AddBlock: GetBlockID for "+
